@@ -115,6 +115,7 @@ PROPS["C09"] = dict(
 
 PROPS["C15"] = dict(
     level="proof",
+    translators=["persist.py"],
     technique="Lean 4 theorems (deterministic prefix-reader lemma: every strict prefix of a completely consumed stream "
               "is refused; failed load leaves the receiver unchanged; directory resolution) + exhaustive crash-point "
               "enumeration (truncation at every byte) and chdir histories on the real library",
